@@ -3197,13 +3197,17 @@ B2("F24-C17-keyspace-holds-strong-worker-sender", "C17", "C17:R-C17.5:keyspace::
                 active_memtable.id(),
             ))
             .ok();"""),
-    (KS, """            if let Some(sender) = self.worker_messager.upgrade() {
-                sender.try_send(WorkerMessage::Compact(self.clone())).ok();
-            }
+    (KS, """            let Some(sender) = self.worker_messager.upgrade() else {
+                // NOTE: The database (and its workers) is gone, only this handle is left
+                return;
+            };
+            sender.try_send(WorkerMessage::Compact(self.clone())).ok();
 """, """            self.worker_messager
                 .try_send(WorkerMessage::Compact(self.clone()))
                 .ok();
 """),
+    (KS, """            && self.worker_messager.upgrade().is_some()
+""", ""),
     (_ING, """                if let Some(sender) = self.keyspace.worker_messager.upgrade() {
                     sender
                         .try_send(WorkerMessage::Compact(self.keyspace.clone()))
@@ -3894,3 +3898,61 @@ B("C17-temporary-folder-removed-after-unlock", "C17", "C17:R-C17.11:<locked_file
         }""")
 B("F41-C17-drop-does-not-join-workers", "C17", "C17:R-C17.12:<db::DatabaseInner as std::ops::Drop>::drop", DB,
   "        self.worker_pool.join();\n", "")
+
+# ---- contexts refreshed after repairs 34-41
+_override("S10-C17-lock-after-journal-creation", [(DB, """        let lock_file = LockedFileGuard::create_new(&config.path.join(LOCK_FILE))?;
+
+""", ""), (DB, """        let journal = Arc::new(journal);
+
+        // NOTE: Lastly, fsync version marker""", """        let journal = Arc::new(journal);
+
+        let lock_file = LockedFileGuard::create_new(&config.path.join(LOCK_FILE))?;
+
+        // NOTE: Lastly, fsync version marker""")])
+_override("C02-workers-before-replay", [(DB, """        // Recover keyspaces
+        recover_keyspaces(&db, &meta_keyspace)?;
+""", """        db.worker_pool.start(
+            db.config.worker_threads,
+            &db.supervisor,
+            &db.stats,
+            &PoisonDart::new(db.is_poisoned.clone()),
+            &db.active_thread_counter,
+        )?;
+
+        // Recover keyspaces
+        recover_keyspaces(&db, &meta_keyspace)?;
+"""), (DB, """        db.worker_pool.start(
+            db.config.worker_threads,
+            &db.supervisor,
+            &db.stats,
+            &PoisonDart::new(db.is_poisoned.clone()),
+            &db.active_thread_counter,
+        )?;
+
+        for keyspace in to_flush {""", """        for keyspace in to_flush {""")])
+_HALT2 = """            let Some(sender) = self.worker_messager.upgrade() else {
+                // NOTE: The database (and its workers) is gone, only this handle is left
+                return;
+            };
+            sender.try_send(WorkerMessage::Compact(self.clone())).ok();
+"""
+_override("F32-C14-write-halt-only-sleeps", [(KS, _HALT2, """            if self.worker_messager.upgrade().is_none() {
+                return;
+            }
+""")])
+_override("C14-write-halt-nudges-once-before-the-loop", [(KS, _HALT2, """            if self.worker_messager.upgrade().is_none() {
+                return;
+            }
+"""), (KS, """        while self.tree.l0_run_count() >= 30 {
+            // NOTE: A deleted keyspace is not compacted anymore""", """        if let Some(sender) = self.worker_messager.upgrade() {
+            sender.try_send(WorkerMessage::Compact(self.clone())).ok();
+        }
+        while self.tree.l0_run_count() >= 30 {
+            // NOTE: A deleted keyspace is not compacted anymore""")])
+_override("EQ-write-halt-sender-upgraded-once", [(KS, _HALT2, """            match self.worker_messager.upgrade() {
+                Some(sender) => {
+                    let _ = sender.try_send(WorkerMessage::Compact(self.clone()));
+                }
+                None => return,
+            }
+""")])
